@@ -8,7 +8,6 @@ from typing import Iterable
 
 from liquid2.utils.getitem import getitem
 from liquid2.builtin import LambdaExpression
-from liquid2.builtin import Null
 from liquid2.builtin import Path
 from liquid2.builtin import PositionalArgument
 from liquid2.exceptions import LiquidTypeError
@@ -20,19 +19,6 @@ if TYPE_CHECKING:
     from liquid2 import RenderContext
     from liquid2 import TokenT
     from liquid2.builtin import KeywordArgument
-
-
-class _Null:
-    """A null without a token for use by the map filter."""
-
-    def __eq__(self, other: object) -> bool:
-        return other is None or isinstance(other, (_Null, Null))
-
-    def __str__(self) -> str:  # pragma: no cover
-        return ""
-
-
-_NULL = _Null()
 
 
 def _getitem(obj: Any, key: object, default: object = None) -> Any:
@@ -97,11 +83,11 @@ class MapFilter:
 
         if isinstance(first, LambdaExpression):
             return [
-                _NULL if is_undefined(item) else item
+                None if is_undefined(item) else item
                 for item in first.map(context, left)
             ]
 
         try:
-            return [_getitem(itm, str(first), default=_NULL) for itm in left]
+            return [_getitem(itm, str(first), default=None) for itm in left]
         except TypeError as err:
             raise LiquidTypeError("can't map sequence", token=None) from err
